@@ -18,6 +18,8 @@ def main():
     r = sh(f"git -C {REPO} apply {d/'patch.diff'}")
     if r.returncode != 0: print("patch does not apply:", r.stderr); sys.exit(2)
     out = {}
+    import shutil, tempfile
+    keep = tempfile.mkdtemp(prefix="evidence_keep_", dir="/var/tmp"); shutil.copytree(ROOT / "evidence", keep + "/evidence")   # evidence of the unchanged tree must survive a seeded run
     try:
         for p in props:
             t0 = time.time()
@@ -34,6 +36,7 @@ def main():
             print(p, "rc", r.returncode, (viol[:1] or ["-"])[0], "|", (out[p]["first"] or "")[:300])
     finally:
         sh(f"git -C {REPO} checkout -- . && git -C {REPO} clean -fdq -- src crates examples tests benches")
+        shutil.rmtree(ROOT / "evidence"); shutil.copytree(keep + "/evidence", ROOT / "evidence"); shutil.rmtree(keep)
     (d / "result.json").write_text(json.dumps({"detected_by": [p for p, v in out.items() if v["rc"] != 0], "missed_by": [p for p, v in out.items() if v["rc"] == 0], "runs": out}, indent=1))
 
 if __name__ == "__main__": main()
